@@ -33,12 +33,16 @@ impl<'a> Chooser<'a> {
             self.raw();
             return 0;
         }
+        if n as u64 > u32::MAX as u64 {
+            let x = self.bits64();
+            return ((x as u128 * n as u128) >> 64) as usize;
+        }
         ((self.raw() as u64 * n as u64) >> 32) as usize
     }
     /// inclusive range
     pub fn range(&mut self, lo: i64, hi: i64) -> i64 {
         debug_assert!(lo <= hi);
-        lo + self.below((hi - lo + 1) as usize) as i64
+        (lo as i128 + self.below((hi as i128 - lo as i128 + 1) as usize) as i128) as i64
     }
     /// true with probability num/den; false is the "simple" outcome
     pub fn chance(&mut self, num: u32, den: u32) -> bool {
